@@ -1501,10 +1501,14 @@ pub fn generate(tier: &str, rng: &mut Rng) -> Vec<String> {
                     if !ev.is_empty() {
                         c.enc = vec![ev.as_bytes().to_vec()];
                     }
-                    c.frames = vec![(0, 'r', b"\0first".to_vec()), (flag, pc, b"\0second message".to_vec())];
-                    out.push(c.line());
-                    c.frames.remove(0);
-                    out.push(c.line());
+                    // the flagged message with a normal, a 1-byte and an EMPTY payload (a zero-length
+                    // frame with the compressed flag set must be refused just the same)
+                    for second in [b"\0second message".to_vec(), vec![0u8], Vec::new()] {
+                        c.frames = vec![(0, 'r', b"\0first".to_vec()), (flag, pc, second)];
+                        out.push(c.line());
+                        c.frames.remove(0);
+                        out.push(c.line());
+                    }
                 }
             }
         }
@@ -1598,6 +1602,11 @@ pub fn generate(tier: &str, rng: &mut Rng) -> Vec<String> {
                         let enc: Vec<Vec<u8>> = if ev.is_empty() { vec![] } else { vec![ev.as_bytes().to_vec()] };
                         let fr = vec![(0u8, 'r', b"\0a".to_vec()), (flag, if flag == 1 { 'g' } else { 'r' }, b"\0bb".to_vec())];
                         out.push(cli_line(shape, "g", "g", &[], &[], 1, b"\0q", &enc, hs, &fr, ts));
+                        // a flagged frame whose payload is raw and empty / one byte
+                        for p in [Vec::new(), vec![0u8]] {
+                            let fr = vec![(flag, 'r', p)];
+                            out.push(cli_line(shape, "g", "g", &[], &[], 1, b"\0q", &enc, hs, &fr, ts));
+                        }
                     }
                 }
             }
